@@ -58,6 +58,7 @@ theorem get_gap_iter_is_source_any_bs (g : Gap) (c : Nat) (bs : Int) :
   dsimp only
   rw [ImpFasta.rangeUp_zero, List.map_map, ← ImpFasta.mapM_ok]
   apply ImpFasta.generator_eq_mapM
+  · first | rfl | (congr 1; omega)
   · intro k _ acc
     simp only [Function.comp, List.headD_cons]
     exact ImpFasta.yield_gap_congr acc c (by omega)
@@ -100,6 +101,7 @@ theorem fwd_chunks_is_source_any_bs (info : FastaInfo) (start stop bs : Int) (sb
   dsimp only
   rw [ImpFasta.rangeUp_zero, ImpFasta.mapM_map]
   apply ImpFasta.generator_eq_mapM
+  · first | rfl | (congr 1; omega)
   · intro k _ acc
     refine ImpFasta.yield_call_congr (sb info) (fun y => PyRt.Ctl.next (acc ++ [y])) ?_ ?_ <;> simp only [chunkBounds] <;> omega
   · intro ys; rfl
@@ -117,6 +119,7 @@ theorem rev_chunks_is_source_any_bs (info : FastaInfo) (start stop bs : Int) (sb
   · rfl
   · rw [ImpFasta.mapM_map]
     apply ImpFasta.generator_eq_mapM
+    · rfl
     · intro k _ acc
       refine ImpFasta.yield_call_congr' (sb info) rc (fun y => PyRt.Ctl.next (acc ++ [y])) ?_ ?_
         <;> simp only [chunkBounds] <;> omega
